@@ -206,6 +206,123 @@ pub fn check(c: &LCase, st: &mut Stats) -> Result<(), String> {
     Ok(())
 }
 
+// ---------------------------------------------------------------------------------------------
+// The same registration through the real register-level transports: what the *device* ends up
+// being told (after the transport split the addresses into its registers) must be the areas the
+// platform ledger knows, also when a ring straddles a 4 GiB boundary.
+
+#[derive(Clone, Debug, Serialize, Deserialize)]
+pub struct RealCase {
+    pub kind: crate::tkind::TK,
+    pub log2: u8,
+    pub indirect: bool,
+    pub event_idx: bool,
+    /// address of the first DMA allocation
+    pub base: u64,
+}
+
+struct RealRun<'a> {
+    c: &'a RealCase,
+}
+
+impl crate::tkind::WithT for RealRun<'_> {
+    type Out = Result<(), String>;
+    fn call<T: virtio_drivers::transport::Transport + 'static>(self, t: T) -> Self::Out {
+        let c = self.c;
+        let n = 1u64 << c.log2;
+        let legacy = c.kind.legacy();
+        let mut t = t;
+        if legacy {
+            t.set_guest_page_size(4096);
+        }
+        let log0 = with(|w| {
+            w.hal.next_dma = c.base;
+            w.hal.log.len()
+        });
+        let q = match guard(|| new_queue(c.log2, &mut t, 0, c.indirect, c.event_idx, false)) {
+            Caught::Ok(Ok(q)) => q,
+            Caught::Ok(Err(e)) => return Err(format!("creation failed with {:?}", e)),
+            Caught::Panic(p) => return Err(format!("queue creation panicked: {}", p.render())),
+            Caught::Escape(e) => return Err(format!("{:?}", e)),
+        };
+        let regions: Vec<(u64, usize, Dir)> = with(|w| {
+            w.hal.log[log0..].iter().filter_map(|e| if let HalEv::Alloc(i) = e { Some((w.hal.regions[*i].paddr, w.hal.regions[*i].len, w.hal.regions[*i].dir)) } else { None }).collect()
+        });
+        let (want_d, want_a, want_u) = if legacy {
+            let Some(r) = regions.first() else { return Err("no DMA allocation".into()) };
+            (r.0, r.0 + 16 * n, align_page(r.0 + 16 * n + 6 + 2 * n))
+        } else {
+            let to = regions.iter().find(|r| r.2 == Dir::ToDev).ok_or("no driver-to-device DMA region")?;
+            let from = regions.iter().find(|r| r.2 == Dir::FromDev).ok_or("no device-to-driver DMA region")?;
+            (to.0, to.0 + 16 * n, from.0)
+        };
+        let told = with(|w| w.dev.queue(0).clone());
+        if !told.ready || told.size as u64 != n || told.desc != want_d || told.avail != want_a || told.used != want_u {
+            return Err(format!(
+                "the device was told size {} desc {:#x} driver {:#x} device {:#x} (ready: {}), the queue lives at desc {:#x} driver {:#x} device {:#x} (size {})",
+                told.size, told.desc, told.avail, told.used, told.ready, want_d, want_a, want_u, n
+            ));
+        }
+        for (s_, l, name) in [(told.desc, 16 * n, "descriptor area"), (told.avail, 6 + 2 * n, "driver area"), (told.used, 6 + 8 * n, "device area")] {
+            if with(|w| w.hal.region_containing(s_, l as usize).is_none()) {
+                return Err(format!("{} [{:#x},+{}) as registered with the device is not wholly inside one live DMA region", name, s_, l));
+            }
+        }
+        let _ = guard(move || {
+            t.queue_unset(0);
+            drop(q);
+            drop(t);
+        });
+        if let Some(f) = world::first_fault() {
+            if f.prop != "notify_early" {
+                return Err(f.msg);
+            }
+        }
+        Ok(())
+    }
+}
+
+pub fn check_real(c: &RealCase, st: &mut Stats) -> Result<(), String> {
+    world::reset();
+    with(|w| {
+        w.dev.default_max = 65536;
+        w.dev.offered = 1 << 32 | 1 << 28 | 1 << 29;
+    });
+    crate::tkind::with_transport(c.kind, 4, 0, RealRun { c }).map_err(|m| format!("{:?}: {}", c, m))?.map_err(|m| format!("{:?} size {} base {:#x}: {}", c.kind, 1u32 << c.log2, c.base, m))?;
+    st.class("registered_through_real_transport");
+    let n = 1u64 << c.log2;
+    let crosses = (c.base >> 32) != ((c.base + 16 * n + 6 + 2 * n + 4096 + 6 + 8 * n) >> 32);
+    let mut s = Sig::new();
+    s.add(0x4ea1).add(c.kind as u64).add(c.log2 as u64).add(c.base);
+    if crosses {
+        st.class("queue_straddles_4gib");
+        st.nontrivial(s.get(), || json!(c));
+    }
+    Ok(())
+}
+
+pub fn real_grid() -> Vec<RealCase> {
+    use crate::tkind::TK;
+    let mut v = Vec::new();
+    for kind in [TK::MmioModern, TK::MmioLegacy, TK::Pci] {
+        for log2 in [0u8, 3, 8, 10, 12] {
+            let n = 1u64 << log2;
+            let table = (16 * n + 4095) & !4095;
+            // plain, and placements that put the 4 GiB boundary after the descriptor table, inside
+            // the first region, and between the two regions
+            let mut bases = vec![0x4000_0000u64, (1 << 32) - table, (1 << 32) - 4096, (1 << 32) - table - 4096, (3u64 << 32) - table];
+            if kind == TK::MmioLegacy {
+                // the legacy page frame number is 32 bits wide: stay below 2^44
+                bases.retain(|b| *b < 1 << 43);
+            }
+            for base in bases {
+                v.push(RealCase { kind, log2, indirect: log2 % 2 == 0, event_idx: log2 % 3 == 0, base });
+            }
+        }
+    }
+    v
+}
+
 pub fn grid() -> Vec<LCase> {
     let mut v = Vec::new();
     for log2 in 0..=15u8 {
@@ -267,6 +384,10 @@ fn strategy() -> impl Strategy<Value = LCase> {
 }
 
 pub fn replay(case: &serde_json::Value) -> Result<(), String> {
+    if case.get("kind").is_some() {
+        let c: RealCase = serde_json::from_value(case.clone()).map_err(|e| e.to_string())?;
+        return check_real(&c, &mut Stats::default());
+    }
     let c: LCase = serde_json::from_value(case.clone()).map_err(|e| e.to_string())?;
     check(&c, &mut Stats::default())
 }
@@ -282,12 +403,29 @@ pub fn run(ctx: &Ctx) -> Report {
         stats.merge(st);
         failure = f;
     }
+    if failure.is_none() {
+        let (st, f) = run_items(ctx, "real-transport", real_grid(), check_real);
+        stats.merge(st);
+        failure = f;
+    }
+    if failure.is_none() {
+        let strat = || {
+            use crate::tkind::TK;
+            (0usize..3, 0u8..=12, any::<bool>(), any::<bool>(), prop_oneof![Just(1u64 << 32), Just(2u64 << 32), Just(0x8000_0000u64)], 0u64..40).prop_map(|(k, log2, indirect, event_idx, edge, pages)| {
+                let kind = [TK::MmioModern, TK::MmioLegacy, TK::Pci][k];
+                RealCase { kind, log2, indirect, event_idx, base: edge - pages * 4096 }
+            })
+        };
+        let (st, f) = run_proptest(ctx, "real-transport", 8, ctx.n(20_000, 2_000_000), strat, |c: &RealCase, st| check_real(c, st));
+        stats.merge(st);
+        failure = f;
+    }
     Report {
         stats,
         failure,
         info: PartInfo {
             level: "exploration",
-            rule: "exhaustive grid: sizes 2^0..2^15 x {modern,legacy} x 8 flag combinations x in-use answer x max-size in {0,N/2,N-1,N,N+1,65536,u32::MAX} x DMA fault at allocation {none,1,2}; plus proptest over random device-address bases, queue indices and max sizes. Oracle: geometry (alignment, size, disjointness, containment in live DMA memory of a permitting direction, zeroed rings, legacy contiguity) computed independently, refusal without side effects, exact release. Non-trivial = size >= 256, legacy layout, a refusal or a DMA failure; distinct = configuration tuple.",
+            rule: "real transports: the same creation through the register-level MMIO (modern, legacy) and PCI transports with the first DMA allocation placed so that a 4 GiB boundary falls after the descriptor table, inside a region or between the regions: what the device model ends up being told equals where the platform ledger says the queue lives. exhaustive grid: sizes 2^0..2^15 x {modern,legacy} x 8 flag combinations x in-use answer x max-size in {0,N/2,N-1,N,N+1,65536,u32::MAX} x DMA fault at allocation {none,1,2}; plus proptest over random device-address bases, queue indices and max sizes. Oracle: geometry (alignment, size, disjointness, containment in live DMA memory of a permitting direction, zeroed rings, legacy contiguity) computed independently, refusal without side effects, exact release. Non-trivial = size >= 256, legacy layout, a refusal or a DMA failure; distinct = configuration tuple.",
             assumptions: vec!["the grid part is enumerated completely on every run (grid_configurations); the device-address-base part is sampled".into()],
             exhaustive: false,
             extra: json!({"grid_configurations": grid_n, "grid_exhaustive": true}),
